@@ -568,6 +568,8 @@ int mc_main(int argc, char **argv, const McHarness *hs, int nh)
     if (argc < 2) { fprintf(stderr, "usage: %s <harness> [-p N] [-s N] [-d N] [-H horizon] [-X maxexecs] [-D seconds] [--replay choices] [-- harness args]\n", argv[0]); for (i = 0; i < nh; i++) fprintf(stderr, "  %s  %s\n", hs[i].name, hs[i].help ? hs[i].help : ""); return 2; }
     for (i = 0; i < nh; i++) if (!strcmp(hs[i].name, argv[1])) hi = i;
     if (hi < 0) { fprintf(stderr, "unknown harness %s\n", argv[1]); return 2; }
+    /* "--replay <choices>" is accepted anywhere on the line (replay records append it after the harness arguments) */
+    for (i = 2; i + 1 < argc; i++) if (!strcmp(argv[i], "--replay")) { int k; replay = argv[i + 1]; for (k = i; k + 2 < argc; k++) argv[k] = argv[k + 2]; argc -= 2; break; }
     first_harg = argc;
     for (i = 2; i < argc; i++) {
         if (!strcmp(argv[i], "-p")) B.preemptions = atoi(argv[++i]);
